@@ -12,7 +12,10 @@ EXPLANATION = (
     "Span::zero is used only for the two `no start function` errors and module-level placeholders, never as the location "
     "of a syntax error; the parser's current-span accessor falls back to a real token's span at end of input; "
     "(CONFLICT) conflict markers are reported at enumerate-index + 1 with the file given; (RENDER) the rendered location "
-    "line is the span's line_start of the error's own file."
+    "line is the span's line_start of the error's own file; (NODE-SPAN) no syntax-tree node stores as its span the position "
+    "of the parser context left behind by parsing its own children (that is the token after the node); (GUARD-LOCATION) a "
+    "syntax error raised because of what a parsed construct is, is not located at the context its sub-parser left behind; "
+    "(NAME-SPAN) a resolution error that quotes the name of an identifier node is located at that identifier's span."
 )
 UNDECIDED = "that each error's span is the *most helpful* one (which child's span is chosen is a matter of taste); column exactness of rendered underlines."
 
@@ -33,6 +36,9 @@ def run(F, rep, tier):
     span_source(F, rep)
     conflict(F, rep)
     render(F, rep)
+    node_span(F, rep)
+    guard_location(F, rep)
+    name_span(F, rep)
 
 
 def _norm(e):
@@ -197,3 +203,346 @@ def render(F, rep):
                 bad.append(a)
     rep.ob("RENDER", "file_line_display", n >= 3 and not bad,
            "%d rendered error headers print the error's own file and span.line_start (%s)" % (n, bad or "ok"), fn["sp"], sites=n)
+
+
+# --------------------------------------------------------------------------- where a location was taken
+
+ADVANCING = ("eat", "skip", "skip_if", "prev")
+NEUTRAL = ("push_skip_newlines", "pop_skip_newlines", "push_last_statement_location", "clone")
+CTX = "sylt_parser::Context"
+
+
+class CtxSteps:
+    """how a parser Context value was derived from the function's entry context: the list of token-consuming steps
+    on the way ([] = provably still at the first token of the construct this function parses)"""
+
+    def __init__(self, fn):
+        self.fn = fn
+        self.body = fn_body(fn)
+        self.fl = Flow(fn, self.body)
+        self.reassigned = set()
+        for a in nodes(self.body, "Assign"):
+            l = peel(a["l"])
+            if l.get("k") == "Path" and l.get("res") == "Local":
+                self.reassigned.add(l["hid"])
+
+    def steps(self, e, depth=0):
+        e = peel_clone(e)
+        if depth > 16 or not isinstance(e, dict):
+            return ["?"]
+        k = e.get("k")
+        if k == "Path" and e.get("res") == "Local":
+            if e["hid"] in self.reassigned:
+                return ["reassigned:" + e["name"]]
+            o = self.fl.origin.get(e["hid"])
+            if o is None:
+                return ["?origin"]
+            if o["kind"] == "param":
+                return []
+            if o["kind"] == "closure":
+                return ["closure-parameter"]
+            src = o.get("src")
+            if src is None:
+                return ["?" + o["kind"]]
+            if o["path"] == ():
+                return self.steps(src, depth + 1)
+            return self.destructured(src, depth + 1)
+        if k == "MethodCall":
+            if e["m"] in ADVANCING:
+                return self.steps(e["recv"], depth + 1) + [e["m"]]
+            if e["m"] in NEUTRAL:
+                return self.steps(e["recv"], depth + 1)
+            return ["?method:" + e["m"]]
+        if k == "Try":
+            return self.steps(e["e"], depth + 1)
+        if k == "Block":
+            if e.get("e") is None:
+                return ["?block"]
+            return self.steps(e["e"], depth + 1)
+        if k == "If":
+            a = self.steps(e["t"], depth + 1)
+            b = self.steps(e["e"], depth + 1) if e.get("e") else []
+            return a or b
+        if k == "Match":
+            out = []
+            for arm in e["arms"]:
+                from hir import diverges
+                if diverges(arm["body"]):
+                    continue
+                out = out or self.steps(arm["body"], depth + 1)
+            return out
+        if k == "Call":
+            return ["parsed:" + last(callee(e) or "?")]
+        if k == "Tup":
+            # (ctx, value) tuples built inline: the first Context-typed element
+            for x in e["es"]:
+                if CTX in (peel(x).get("ty") or ""):
+                    return self.steps(x, depth + 1)
+            return ["?tuple"]
+        return ["?" + str(k)]
+
+    def destructured(self, src, depth):
+        """a context bound by destructuring the result of src: `(token, span, ctx) = c.eat()`, `(ctx, node) = parse(c)?`"""
+        src = peel_clone(src)
+        if src.get("k") == "Try":
+            src = peel_clone(src["e"])
+        k = src.get("k")
+        if k == "MethodCall" and src["m"] in ADVANCING:
+            return self.steps(src["recv"], depth + 1) + [src["m"]]
+        if k == "Call":
+            return ["parsed:" + last(callee(src) or "?")]
+        if k in ("If", "Match", "Block", "Tup"):
+            return self.steps(src, depth + 1)
+        return ["?destructure:" + str(k)]
+
+
+NODE_TYPES = ("Assignable", "Statement", "IfBranch", "TypeAssignable")
+NODE_SPAN_EXEMPT = {
+    ("infix", "Expression"): "the Get(..) wrapper built after sub_assignable: name resolution replaces the wrapper by the "
+                             "assignable's own node (EK::Get(g) => self.assignable(g)), its span is never reported",
+}
+
+
+def _binding_sites(cs, e, depth=0, out=None, ancestors=True):
+    """ids of the destructuring sites (`(tok, span, ctx) = c.eat()`, `(ctx, node) = parse(c)?`) through which the value of
+    expression e was obtained, following plain lets"""
+    if out is None:
+        out = {}
+    if depth > 10:
+        return out
+    for x in nodes(e, "Path"):
+        if x.get("res") != "Local":
+            continue
+        o = cs.fl.origin.get(x["hid"])
+        if o is None or o.get("src") is None:
+            continue
+        if o["path"] == ():
+            if o["kind"] == "let":
+                _binding_sites(cs, o["src"], depth + 1, out, ancestors)
+            continue
+        src = peel_clone(o["src"])
+        if src.get("k") == "Try":
+            src = peel_clone(src["e"])
+        if (src.get("k") == "MethodCall" and src["m"] in ADVANCING) or src.get("k") == "Call":
+            out[id(o["node"])] = pp(src)[:50]
+            # the context the call started from may itself be a post-context
+            if ancestors:
+                _binding_sites(cs, src.get("recv") if src.get("k") == "MethodCall" else (src.get("args") or [None])[0], depth + 1, out)
+        else:
+            idx = [el[1] for el in o["path"] if el[0] == "tuple"]
+            for t in _tails(src):
+                if t.get("k") == "Tup" and idx and idx[0] < len(t["es"]):
+                    _binding_sites(cs, t["es"][idx[0]], depth + 1, out, ancestors)
+    return out
+
+
+def _tails(e, depth=0):
+    """the value-producing tail expressions of a block / if / match (diverging branches skipped)"""
+    from hir import diverges
+    e = peel_clone(e)
+    if not isinstance(e, dict) or depth > 8:
+        return []
+    k = e.get("k")
+    if k == "Block":
+        return _tails(e["e"], depth + 1) if e.get("e") is not None else []
+    if k == "If":
+        return _tails(e["t"], depth + 1) + (_tails(e["e"], depth + 1) if e.get("e") else [])
+    if k == "Match":
+        out = []
+        for a in e["arms"]:
+            if not diverges(a["body"]):
+                out += _tails(a["body"], depth + 1)
+        return out
+    return [e]
+
+
+def node_span(F, rep):
+    """the span stored in a syntax-tree node is where diagnostics about that node point.  It must not be read from the
+    parser context that results from parsing one of the node's own children (`(tok, span, ctx) = c.eat()` /
+    `(ctx, child) = parse(c)?` followed by `ctx.span()`): that context stands on the token *after* the child, so an
+    error about the node is reported at whatever follows it - on a later line when a line break follows."""
+    n = 0
+    for fn in F.own_fns(["sylt_parser"]):
+        if "::test" in fn["_path"]:
+            continue
+        body = fn_body(fn)
+        cs = None
+        seen = {}
+        for s in nodes(body):
+            ty = spanexpr = None
+            others = []
+            if s.get("k") == "Struct":
+                p = norm_path(s["path"])
+                if p.startswith("sylt_parser::") and last(p) in NODE_TYPES:
+                    f = {x["name"]: x["e"] for x in s["fields"]}
+                    if "span" in f:
+                        ty, spanexpr = last(p), f["span"]
+                        others = [v for k, v in f.items() if k != "span"]
+            elif s.get("k") == "Call":
+                c = callee(s) or ""
+                if c in ("sylt_parser::expression::Expression::new", "sylt_parser::Expression::new"):
+                    ty, spanexpr = "Expression", s["args"][0]
+                    others = s["args"][1:]
+            if ty is None:
+                continue
+            if cs is None:
+                cs = CtxSteps(fn)
+                rep.analysed(fn)
+            n += 1
+            fname = last(fn["_path"])
+            key = "%s|%s" % (fname, ty)
+            seen[key] = seen.get(key, 0) + 1
+            if seen[key] > 1:
+                key += "#%d" % seen[key]
+            # the context whose .span() is stored (through plain lets)
+            se = peel_clone(spanexpr)
+            hops = 0
+            while se.get("k") == "Path" and se.get("res") == "Local" and hops < 6:
+                o = cs.fl.origin.get(se["hid"])
+                if o and o["kind"] == "let" and o["path"] == () and o.get("src") is not None:
+                    se = peel_clone(o["src"])
+                    hops += 1
+                else:
+                    break
+            if not (se.get("k") == "MethodCall" and se["m"] == "span"):
+                rep.ob("NODE-SPAN", key, True, "the span of this %s node is not read from a parser context (%s)" % (ty, pp(se)[:50]), line_of(s))
+                continue
+            ctx_sites = _binding_sites(cs, se["recv"])
+            child_sites = {}
+            for v in others:
+                _binding_sites(cs, v, 0, child_sites, ancestors=False)
+            common = [ctx_sites[k] for k in ctx_sites if k in child_sites]
+            if common and (fname, ty) in NODE_SPAN_EXEMPT:
+                rep.ob("NODE-SPAN", key, True, "exempt: " + NODE_SPAN_EXEMPT[(fname, ty)], line_of(s))
+                continue
+            rep.ob("NODE-SPAN", key, not common,
+                   ("the span of this %s node is not taken from the context left behind by parsing its own children" % ty) if not common else
+                   ("the span of this %s node is `%s`, and that context is the one left behind by `%s`, which produced a child of "
+                    "the node: the span names the token after the child, so errors about the node (unresolved member, missing "
+                    "field) are reported at whatever follows it - on the next line when a line break follows"
+                    % (ty, pp(se)[:40], common[0])), line_of(s))
+    rep.floor("NODE-SPAN", "node constructions", n, 30)
+
+
+def guard_location(F, rep):
+    """an error that is raised because of what a *parsed construct* is (a test on the node a sub-parser returned) must
+    not be located at the context that sub-parser left behind: that is the token after the construct - for statements,
+    which consume their line terminator, always the next line.  Errors raised because of what the *current token* is are
+    rightly located at the current token."""
+    n = 0
+    for fn in F.own_fns(["sylt_parser"]):
+        if "::test" in fn["_path"]:
+            continue
+        body = fn_body(fn)
+        cs = None
+        seen = {}
+        for s, parents in walk(body):
+            if s.get("k") != "Struct" or not norm_path(s["path"]).endswith("Error::SyntaxError"):
+                continue
+            if cs is None:
+                cs = CtxSteps(fn)
+                rep.analysed(fn)
+            n += 1
+            f = {x["name"]: x["e"] for x in s["fields"]}
+            se = peel_clone(f.get("span"))
+            fname = last(fn["_path"])
+            msg = ""
+            m = peel(f.get("message"))
+            if isinstance(m, dict) and m.get("k") == "Call" and m.get("args"):
+                m = peel(m["args"][0])
+            src = cs.fl.trace(m) if isinstance(m, dict) and m.get("k") == "Path" else m
+            from hir import find_formats, format_text
+            for _c, parts in find_formats(src):
+                msg = format_text(parts)
+            key = "%s|%s" % (fname, msg[:40])
+            seen[key] = seen.get(key, 0) + 1
+            if seen[key] > 1:
+                key += "#%d" % seen[key]
+            if not (se.get("k") == "MethodCall" and se["m"] == "span"):
+                continue
+            ctx_sites = _binding_sites(cs, se["recv"])
+            # values the enclosing guards look at (other than the context itself)
+            bad = None
+            for par in parents:
+                g = par["scrut"] if par.get("k") == "Match" else par["c"] if par.get("k") == "If" else None
+                if g is None:
+                    continue
+                for x in nodes(g, "Path"):
+                    if x.get("res") != "Local":
+                        continue
+                    o = cs.fl.origin.get(x["hid"])
+                    if o is None or o.get("src") is None or o["path"] == ():
+                        continue
+                    srcx = peel_clone(o["src"])
+                    if srcx.get("k") == "Try":
+                        srcx = peel_clone(srcx["e"])
+                    idx = [el[1] for el in o["path"] if el[0] == "tuple"]
+                    if srcx.get("k") == "Call" and idx and idx[0] != 0 and id(o["node"]) in ctx_sites:
+                        bad = (x["name"], pp(srcx)[:50])
+            rep.ob("GUARD-LOCATION", key, bad is None,
+                   "the error is located at the current token or at the construct's own position" if bad is None else
+                   "the error is raised because of `%s`, the construct returned by `%s`, but it is located at the context that "
+                   "call left behind - the token after the construct (the next line when the construct ends its line)" % bad,
+                   line_of(s))
+    rep.floor("GUARD-LOCATION", "syntax error constructions", n, 90)
+
+
+def name_span(F, rep):
+    """`Cannot find "x" in namespace ..` / `No type named "x"`: when the message quotes <ident>.name, the error's span is
+    <ident>.span (the place where that name is written), not the span of an enclosing statement"""
+    n = 0
+    NR = "sylt_compiler::name_resolution"
+    for fn in F.own_fns(["sylt_compiler"]):
+        if not fn["_path"].startswith(NR):
+            continue
+        fl = None
+        seen = {}
+        for s in nodes(fn_body(fn), "Struct"):
+            if not norm_path(s["path"]).endswith("Error::CompileError"):
+                continue
+            if fl is None:
+                fl = Flow(fn, fn_body(fn))
+            f = {x["name"]: x["e"] for x in s["fields"]}
+            m = peel(f["message"])
+            if m.get("k") == "Call" and m.get("args"):
+                m = peel(m["args"][0])
+            src = fl.trace(m) if m.get("k") == "Path" else m
+            from hir import find_formats, format_text
+            for _c, parts in find_formats(src):
+                quoted = [peel(q["e"]) for q in parts if isinstance(q, dict)]
+                idents = [q for q in quoted if q.get("k") == "Field" and q["name"] == "name"
+                          and (q.get("base_ty") or "").replace("&", "").strip() == "sylt_parser::Identifier"]
+                if not idents:
+                    continue
+                n += 1
+                rep.analysed(fn)
+                key = "%s|%s" % (last(fn["_path"], 2), format_text(parts)[:40])
+                seen[key] = seen.get(key, 0) + 1
+                if seen[key] > 1:
+                    key += "#%d" % seen[key]
+                base = pp(_norm(idents[0]["e"]))
+                se = _norm(f["span"])
+                # through `let span = X.span` lets and .clone()
+                hops = 0
+                while se.get("k") == "Path" and se.get("res") == "Local" and hops < 4:
+                    o = fl.origin.get(se["hid"])
+                    if o and o["kind"] == "let" and o["path"] == () and o.get("src") is not None:
+                        se = _norm(o["src"])
+                        hops += 1
+                    else:
+                        break
+                ok = se.get("k") == "Field" and se["name"] == "span" and pp(_norm(se["e"])) == base
+                why = ""
+                if not ok and (last(fn["_path"]), pp(se)) in NAME_SPAN_EXEMPT:
+                    ok, why = True, " (exempt: %s)" % NAME_SPAN_EXEMPT[(last(fn["_path"]), pp(se))]
+                rep.ob("NAME-SPAN", key, ok,
+                       ("the message quotes %s.name and the error is located at %s%s" % (base, pp(se), why)) if ok else
+                       ("the message quotes %s.name but the error is located at `%s`, not at %s.span: for a construct spread "
+                        "over several lines the report names the wrong line" % (base, pp(se), base)), line_of(s))
+    rep.floor("NAME-SPAN", "resolution errors quoting an identifier", n, 8)
+
+
+NAME_SPAN_EXEMPT = {
+    ("assignable", "assignable.span"): "the span of the Access node itself, which the parser takes from the accessed identifier "
+                                       "(see NODE-SPAN for how that span is obtained)",
+}
